@@ -20,13 +20,17 @@ import (
 var errRandFail = errors.New("verif: randomness source exhausted")
 
 type streamReader struct {
-	data   []byte
-	calls  int
-	failAt int // transient fault: this Read call (1-based) fails once, consuming nothing
+	data    []byte
+	calls   int
+	failAt  int // transient fault: this Read call (1-based) fails once, consuming nothing
+	shortAt int // this Read call (1-based) delivers fewer bytes than asked, with a nil error
 }
 
 // randFailAt, when non-zero, makes the next pinned randomness source fail transiently at that Read call
 var randFailAt int
+
+// randShortAt, when non-zero, makes that Read call a legal short read (n < len(p), nil error)
+var randShortAt int
 var randCalls int // Read calls made on the last pinned source
 
 func (s *streamReader) Read(p []byte) (int, error) {
@@ -37,6 +41,11 @@ func (s *streamReader) Read(p []byte) (int, error) {
 	}
 	if len(s.data) == 0 {
 		return 0, errRandFail
+	}
+	if s.shortAt != 0 && s.calls == s.shortAt && len(p) > 1 && len(s.data) > 1 {
+		n := copy(p[:1+len(p)/8], s.data)
+		s.data = s.data[n:]
+		return n, nil
 	}
 	n := copy(p, s.data)
 	s.data = s.data[n:]
@@ -50,7 +59,7 @@ func (s *streamReader) Read(p []byte) (int, error) {
 // returns how many bytes were left unread.
 func withRand(stream []byte, f func()) (left int) {
 	old := cryptorand.Reader
-	sr := &streamReader{data: append([]byte{}, stream...), failAt: randFailAt}
+	sr := &streamReader{data: append([]byte{}, stream...), failAt: randFailAt, shortAt: randShortAt}
 	cryptorand.Reader = sr
 	defer func() { cryptorand.Reader = old; left = len(sr.data) }()
 	f()
